@@ -27,8 +27,21 @@ if ! go build $MODFLAG -tags verif -overlay "$WORK/overlay.json" -o bin/vsched_$
 fi
 if [ "$TIER" = "replay" ]; then ./bin/vsched_$RUN replay "$2"; exit $?; fi
 if [ "$TIER" = "watch-replay" ]; then ./bin/vsched_$RUN watch-replay "$2"; exit $?; fi
+if [ "$TIER" = "conc-replay" ]; then ./bin/vsched_$RUN conc-replay "$2"; exit $?; fi
 # write-monitor stage of another property's check: c18.sh watch <ID> <tier>
 if [ "$TIER" = "watch" ]; then ./bin/vsched_$RUN watch "$2" "${3:-quick}"; exit $?; fi
+# the second stages of another property's check in one instrumented build: c18.sh stages <ID> <tier>
+# (write monitor where the property has frame conditions, then the concurrent stage)
+if [ "$TIER" = "stages" ]; then
+  rcw=0
+  case "$2" in
+    C01|C02|C03|C04|C08|C10|C11|C12|C16) ./bin/vsched_$RUN watch "$2" "${3:-quick}"; rcw=$? ;;
+  esac
+  ./bin/vsched_$RUN conc "$2" "${3:-quick}"; rcc=$?
+  if [ $rcw -eq 1 ] || [ $rcc -eq 1 ]; then exit 1; fi
+  if [ $rcw -ne 0 ]; then exit $rcw; fi
+  exit $rcc
+fi
 ./bin/vsched_$RUN explore "$TIER"
 rc=$?
 ITER=60; [ "$TIER" = "thorough" ] && ITER=400
